@@ -87,6 +87,11 @@ class Ctx:
                                  'confirmed by hand: the rule no longer sees its '
                                  'subjects' % (rule, n, minimum))
 
+    def unknown(self, rule, construct, what, loc=''):
+        """The rule cannot recognise its subject (idiom absent rather than wrong): reported as
+        ANALYSIS-ERROR unless a violation is found elsewhere -- never as a violation."""
+        self.deficits.append('rule %s cannot tell for %s (%s): %s' % (rule, construct, loc, what))
+
     def failures(self):
         return [o for o in self.obs if not o.ok]
 
